@@ -225,6 +225,24 @@ def extract_constants():
         out["boxPrecedence"] = "ownFirst"
     else:
         raise ValueError("_call_non_index_function: unrecognised box selection for periodic=True")
+    # --- distance / angle / dihedral: which atoms every `displacement(...)` call connects, and does it pass `box` on?
+    def disp_calls(fname):
+        f_ = _func(gt, fname)
+        calls = []
+        for n in ast.walk(f_):
+            if isinstance(n, ast.Call) and isinstance(n.func, ast.Name) and n.func.id == "displacement":
+                names = [a.id if isinstance(a, ast.Name) else "?" for a in n.args]
+                if len(names) < 2 or not all(x.startswith("atoms") and x[5:].isdigit() for x in names[:2]):
+                    raise ValueError(f"{fname}: unexpected displacement() arguments")
+                passes = (len(n.args) >= 3 and isinstance(n.args[2], ast.Name) and n.args[2].id == "box") or any(
+                    k_.arg == "box" and isinstance(k_.value, ast.Name) and k_.value.id == "box" for k_ in n.keywords)
+                calls.append((n.lineno, int(names[0][5:]), int(names[1][5:]), bool(passes)))
+        if not calls:
+            raise ValueError(f"{fname}: no displacement() call found")
+        return [(a, b, p_) for _, a, b, p_ in sorted(calls)]
+    out["distanceCalls"] = disp_calls("distance")
+    out["angleCalls"] = disp_calls("angle")
+    out["dihedralCalls"] = disp_calls("dihedral")
     # --- vectors_from_unitcell: is the zeroing tolerance scaled by the SUM of the three lengths?
     f = _func(bt, "vectors_from_unitcell")
     tols = [n for n in ast.walk(f) if isinstance(n, ast.Assign) and len(n.targets) == 1
@@ -268,6 +286,10 @@ def gen_lean():
         "def orthoPairs : List (Nat × Nat) := [" + ", ".join(f"({a}, {b})" for a, b in k["orthoPairs"]) + "]",
         "/-- `repeat_box` hands its `amount` argument on to `repeat_box_coord` -/",
         f"def repeatBoxPassesAmount : Bool := {'true' if k['repeatBoxPassesAmount'] else 'false'}",
+        "/-- every `displacement(atomsI, atomsJ, box?)` call of distance / angle / dihedral: (I, J, passes `box` on) -/",
+        "def distanceCalls : List (Nat × Nat × Bool) := [" + ", ".join(f"({a}, {b}, {'true' if p_ else 'false'})" for a, b, p_ in k["distanceCalls"]) + "]",
+        "def angleCalls : List (Nat × Nat × Bool) := [" + ", ".join(f"({a}, {b}, {'true' if p_ else 'false'})" for a, b, p_ in k["angleCalls"]) + "]",
+        "def dihedralCalls : List (Nat × Nat × Bool) := [" + ", ".join(f"({a}, {b}, {'true' if p_ else 'false'})" for a, b, p_ in k["dihedralCalls"]) + "]",
         "/-- the round-off clean-up of `vectors_from_unitcell` compares with a tolerance built from the SUM of the lengths -/",
         f"def unitcellTolUsesSum : Bool := {'true' if k['unitcellTolUsesSum'] else 'false'}",
         "end BiotiteModel.Gen.C15", ""]
@@ -813,7 +835,11 @@ def gen_float(rng):
     r = rng.random()
     dt = rng.choice(["f32", "f32", "f64"])
     seed = rng.getrandbits(48)
-    if r < 0.08:
+    if r < 0.07:
+        return _gen_pmeasure(rng, seed)
+    if r < 0.13:
+        return _gen_transform(rng, seed)
+    if r < 0.20:
         # index variants on AtomArray / AtomArrayStack objects that carry their own box
         n = rng.choice([5, 8, 12])
         m = rng.choice([0, 0, 2, 3])
@@ -827,7 +853,7 @@ def gen_float(rng):
         case["explicit"] = None if exp_kind == "none" else (
             [_float_box(rng)[1] for _ in range(m)] if (m and rng.random() < 0.5) else _float_box(rng)[1])
         return case
-    if r < 0.30:
+    if r < 0.36:
         lim = rng.choice([5, 30, 100])
         n = rng.choice([1, 2, 4, 7])
         m = rng.choice([0, 0, 2, 3])          # 0: no model axis
@@ -889,6 +915,96 @@ def gen_float(rng):
                      "stretch": 1.0 if rng.random() < 0.85 else rng.uniform(2.0, 12.0)})
     return {"kind": "f-rpbc", "dt": dt, "boxkind": kind, "box": box, "mols": mols,
             "wrap": rng.choice(["shift", "shift", "inside"]), "seed": seed}
+
+
+def _heights_f(box):
+    def cr(u, v):
+        return [u[1] * v[2] - u[2] * v[1], u[2] * v[0] - u[0] * v[2], u[0] * v[1] - u[1] * v[0]]
+    a, b, c = box
+    det = abs(sum(x * y for x, y in zip(a, cr(b, c))))
+    return [det / math.sqrt(sum(x * x for x in cr(b, c))), det / math.sqrt(sum(x * x for x in cr(c, a))),
+            det / math.sqrt(sum(x * x for x in cr(a, b)))]
+
+
+def _unit(rng):
+    while True:
+        d = [rng.gauss(0, 1) for _ in range(3)]
+        n = math.sqrt(sum(x * x for x in d))
+        if n > 0.3:
+            return [x / n for x in d]
+
+
+def _gen_pmeasure(rng, seed):
+    """four-atom chains measured WITH a box: every consecutive pair (1-2, 2-3, 3-4) is split across a box face in turn,
+    in combinations and at random; bonds are shorter than 0.4 x the smallest box height, bond angles well away from 0/180"""
+    kind, box = _float_box(rng)
+    hmin = min(_heights_f(box))
+    chains = []
+    for _ in range(rng.choice([1, 2, 3])):
+        q = [[sum(rng.uniform(0, 1) * box[r_][i] for r_ in range(3)) for i in range(3)]]
+        prev = None
+        for _b in range(3):
+            while True:
+                d = _unit(rng)
+                if prev is None:
+                    break
+                cs = sum(x * y for x, y in zip(d, prev))
+                if abs(cs) < 0.9:          # sin of the bond angle > 0.43
+                    break
+            ln = rng.uniform(1.2, max(1.3, min(6.0, 0.4 * hmin)))
+            q.append([q[-1][i] + d[i] * ln for i in range(3)])
+            prev = d
+        chains.append(q)
+
+    def shift():
+        while True:
+            v = [rng.randint(-2, 2) for _ in range(3)]
+            if any(v):
+                return v
+    pattern = rng.choice(["split12", "split23", "split34", "split12+34", "split23+34", "all-pairs", "random", "none"])
+    s1, s2, s3 = shift(), shift(), shift()
+    zero = [0, 0, 0]
+
+    def add(*vs):
+        return [sum(v[i] for v in vs) for i in range(3)]
+    shifts = {
+        "split12": [s1, zero, zero, zero], "split23": [s1, s1, zero, zero], "split34": [zero, zero, zero, s1],
+        "split12+34": [s1, zero, zero, s2], "split23+34": [s1, s1, zero, s2], "all-pairs": [add(s1, s2, s3), add(s2, s3), s3, zero],
+        "random": [shift(), shift(), shift(), shift()], "none": [zero, zero, zero, zero]}[pattern]
+    return {"kind": "f-pmeasure", "boxkind": kind, "box": box, "chains": chains, "pattern": pattern, "shifts": shifts,
+            "rewrap_atom": rng.randrange(4), "rewrap_shift": shift(), "seed": seed}
+
+
+def _gen_transform(rng, seed):
+    """the helpers of transform.py the rigid-motion clause relies on, incl. (nearly) antiparallel align_vectors inputs"""
+    motion = rng.choice(["rotate", "rotate_centered", "rotate_about_axis", "translate", "align_vectors", "align_vectors", "align_vectors"])
+    case = {"kind": "f-transform", "motion": motion, "seed": seed, "dt": rng.choice(["f32", "f64"]),
+            "params": [rng.uniform(-math.pi, math.pi) for _ in range(9)],
+            "points": [[_fl(rng, 20) for _ in range(3)] for _ in range(6)], "positions": rng.random() < 0.5}
+    if motion == "align_vectors":
+        mode = rng.choice(["generic", "generic", "near-antiparallel", "near-antiparallel", "antiparallel", "antiparallel", "parallel"])
+        case["mode"] = mode
+        if mode == "antiparallel":
+            a = rng.choice([[0, 0, 1], [1, 1, 0], [3, 0, 4], [1, 2, 2], [1, 2, 3], [rng.randint(-5, 5) for _ in range(3)], [0, -2, 0]])
+            if not any(a):
+                a = [1, 0, 0]
+            kf = rng.choice([1, 2, 3, 0.5])
+            case["origin"], case["target"] = [float(x) for x in a], [-kf * x for x in a]
+        elif mode == "parallel":
+            a = _unit(rng)
+            case["origin"], case["target"] = a, [2.5 * x for x in a]
+        else:
+            a = _unit(rng)
+            p_ = _unit(rng)
+            dp = sum(x * y for x, y in zip(a, p_))
+            p_ = [x - dp * y for x, y in zip(p_, a)]
+            n_ = math.sqrt(sum(x * x for x in p_)) or 1.0
+            p_ = [x / n_ for x in p_]
+            ang = rng.uniform(0.05, 3.0) if mode == "generic" else math.pi - 10 ** rng.uniform(-6, -1)
+            ln = rng.uniform(0.5, 4)
+            case["origin"] = a
+            case["target"] = [ln * (math.cos(ang) * x + math.sin(ang) * y) for x, y in zip(a, p_)]
+    return case
 
 
 def _farr(rng, shape, lim):
@@ -1004,7 +1120,7 @@ def oracle(case):
         warnings.simplefilter("ignore")
         k = case.get("kind", "")
         if k.startswith("f-"):
-            return {"f-geom": _o_geom, "f-index": _o_index, "f-pbc": _o_pbc, "f-move": _o_move, "f-unitcell": _o_unitcell, "f-rpbc": _o_rpbc}[k](case)
+            return {"f-geom": _o_geom, "f-index": _o_index, "f-pmeasure": _o_pmeasure, "f-transform": _o_transform, "f-pbc": _o_pbc, "f-move": _o_move, "f-unitcell": _o_unitcell, "f-rpbc": _o_rpbc}[k](case)
         return _o_exact(case)
 
 
@@ -1372,6 +1488,136 @@ def _o_index(case):
             v.append((f"C15/index_{name}/{which}",
                       f"periodic={periodic}, atoms carry {'a box' if own is not None else 'no box'}, explicit box {'given' if exp is not None else 'not given'}: "
                       f"{np.asarray(got).reshape(-1)[:4].tolist()} vs {name}(coords, documented box) {np.asarray(ref).reshape(-1)[:4].tolist()}"))
+    return v
+
+
+def _o_pmeasure(case):
+    """distance / angle / dihedral WITH a box == the non-periodic value on the unwrapped chain, and unchanged when any
+    single atom is wrapped by a further lattice vector; index variants (periodic=True) == coordinate variants"""
+    import numpy as np
+
+    import biotite.structure as struc
+    v = []
+    eps = EPS["f32"]
+    box = np.array(case["box"], dtype=np.float32)
+    b64 = box.astype(np.float64)
+    cond = _cond(_box_fl(box))
+    q = np.array(case["chains"], dtype=np.float64)               # (n, 4, 3) unwrapped
+    sh = np.array(case["shifts"], dtype=np.float64)              # (4, 3) integer lattice shifts
+    p = q + (sh @ b64)[np.newaxis, :, :]
+    p2 = p.copy()
+    p2[:, case["rewrap_atom"], :] += np.array(case["rewrap_shift"], dtype=np.float64) @ b64
+    Q = [q[:, i, :].astype(np.float32) for i in range(4)]
+    P = [p[:, i, :].astype(np.float32) for i in range(4)]
+    P2 = [p2[:, i, :].astype(np.float32) for i in range(4)]
+    M = float(max(np.abs(p).max(), np.abs(p2).max())) + float(np.abs(box).max())
+
+    def measure(X, bx):
+        return (np.asarray(struc.distance(X[0], X[1], bx), dtype=float), np.asarray(struc.angle(X[0], X[1], X[2], bx), dtype=float),
+                np.asarray(struc.dihedral(X[0], X[1], X[2], X[3], bx), dtype=float))
+    ref = measure(Q, None)
+    got = measure(P, box)
+    got2 = measure(P2, box)
+    pat = case["pattern"]
+    for i in range(len(q)):
+        l1, l2, l3 = (float(np.linalg.norm(q[i, j + 1] - q[i, j])) for j in range(3))
+        n1, n2 = np.cross(q[i, 1] - q[i, 0], q[i, 2] - q[i, 1]), np.cross(q[i, 2] - q[i, 1], q[i, 3] - q[i, 2])
+        smin = min(float(np.linalg.norm(n1)) / (l1 * l2), float(np.linalg.norm(n2)) / (l2 * l3))
+        tol_d = 24 * eps * cond * (M + l1)
+        tol_c = 48 * eps * cond * (1 + M / l1 + M / l2)
+        tol_h = 192 * eps * cond * (1 + M / min(l1, l2, l3)) / smin ** 2
+        for label, other in (("differs-from-unwrapped", ref), ("changes-when-one-atom-is-wrapped", got2)):
+            if abs(got[0][i] - other[0][i]) > tol_d:
+                v.append((f"C15/distance/periodic-{label}/{pat}", f"{case['boxkind']} box: {got[0][i]!r} vs {other[0][i]!r} (tol {tol_d:.3g})"))
+            if abs(math.cos(got[1][i]) - math.cos(other[1][i])) > tol_c:
+                v.append((f"C15/angle/periodic-{label}/{pat}", f"{case['boxkind']} box: {got[1][i]!r} vs {other[1][i]!r} (tol on cos {tol_c:.3g})"))
+            if _angdiff(got[2][i], other[2][i]) > tol_h:
+                v.append((f"C15/dihedral/periodic-{label}/{pat}", f"{case['boxkind']} box, atom shifts {case['shifts']}: {got[2][i]!r} vs {other[2][i]!r} (tol {tol_h:.3g})"))
+    # index variants on an AtomArray that carries the box
+    n = len(q)
+    allc = np.concatenate(P, axis=0)
+    atoms = _mk_atoms(np, struc, allc, box)
+    idx = np.stack([np.arange(n) + t * n for t in range(4)], axis=1)
+    for name, ifn, k, g in (("distance", struc.index_distance, 2, got[0]), ("angle", struc.index_angle, 3, got[1]), ("dihedral", struc.index_dihedral, 4, got[2])):
+        r1 = np.asarray(ifn(atoms, idx[:, :k], periodic=True), dtype=float)
+        if r1.shape != g.shape or not np.array_equal(r1, g, equal_nan=True):
+            v.append((f"C15/index_{name}/periodic-differs-from-coordinate-variant", f"{r1.tolist()} vs {g.tolist()}"))
+    return v
+
+
+def _o_transform(case):
+    """every transformation helper must be a proper rigid motion x -> R x + t: R orthonormal, det R = +1, distances and
+    the SIGN of dihedrals preserved; align_vectors must map the origin direction onto the target direction (or reject
+    exactly opposite directions)"""
+    import numpy as np
+
+    import biotite.structure as struc
+    v = []
+    motion = case["motion"]
+    mp = case["params"]
+    probe = np.array([[0, 0, 0], [1, 0, 0], [0, 1, 0], [0, 0, 1]] + case["points"], dtype=DT[case["dt"]])
+    o_pos = [mp[3], mp[4], mp[5]] if case["positions"] else None
+    t_pos = [mp[6], mp[7], mp[8]] if case["positions"] else None
+    try:
+        if motion == "rotate":
+            out = struc.rotate(probe, mp[:3])
+        elif motion == "rotate_centered":
+            out = struc.rotate_centered(probe, mp[:3])
+        elif motion == "rotate_about_axis":
+            out = struc.rotate_about_axis(probe, [mp[0], mp[1], mp[2] + 4.0], mp[3], support=o_pos)
+        elif motion == "translate":
+            out = struc.translate(probe, [mp[0] * 10, mp[1] * 10, mp[2] * 10])
+        else:
+            out = struc.align_vectors(probe, case["origin"], case["target"], origin_position=o_pos, target_position=t_pos)
+    except ValueError as e:
+        if motion == "align_vectors" and case.get("mode") == "antiparallel":
+            return []            # documented: exactly opposite directions are rejected
+        return [(f"C15/{motion}/rejects-valid-input", f"{type(e).__name__}: {e}")]
+    out = np.asarray(out, dtype=np.float64)
+    p64 = probe.astype(np.float32).astype(np.float64)
+    R = (out[1:4] - out[0]).T                                   # columns: images of the unit vectors
+    tol = 1e-5
+    orth = float(np.abs(R.T @ R - np.eye(3)).max())
+    det = float(np.linalg.det(R))
+    what = f"{motion}" + (f" ({case.get('mode')}: {case['origin']} -> {case['target']})" if motion == "align_vectors" else "")
+    if orth > tol:
+        v.append((f"C15/{motion}/not-orthonormal", f"{what}: max |RtR - 1| = {orth:.3g}, det = {det:.6f}"))
+    elif abs(det - 1) > tol:
+        v.append((f"C15/{motion}/improper-transformation", f"{what}: det R = {det:.6f} (a reflection / inversion, not a rotation)"))
+    # affine + isometric on further points, handedness preserved
+    mag = float(np.abs(out).max()) + float(np.abs(p64).max()) + 1
+    pts_in, pts_out = p64[4:], out[4:]
+    for i in range(len(pts_in)):
+        for j in range(i):
+            d0, d1 = float(np.linalg.norm(pts_in[i] - pts_in[j])), float(np.linalg.norm(pts_out[i] - pts_out[j]))
+            if abs(d0 - d1) > 64 * EPS["f32"] * mag:
+                v.append((f"C15/{motion}/distance-not-preserved", f"{what}: {d0!r} -> {d1!r}"))
+                break
+        else:
+            continue
+        break
+    t0 = float(np.dot(np.cross(pts_in[1] - pts_in[0], pts_in[2] - pts_in[0]), pts_in[3] - pts_in[0]))
+    t1 = float(np.dot(np.cross(pts_out[1] - pts_out[0], pts_out[2] - pts_out[0]), pts_out[3] - pts_out[0]))
+    if abs(t0) > 1.0 and (t0 > 0) != (t1 > 0):
+        v.append((f"C15/{motion}/handedness-flipped", f"{what}: signed volume {t0!r} -> {t1!r}"))
+    d_in = float(struc.dihedral(*[pts_in[i].astype(np.float32) for i in range(4)]))
+    d_out = float(struc.dihedral(*[pts_out[i].astype(np.float32) for i in range(4)]))
+    if abs(d_in) > 0.2 and abs(abs(d_in) - math.pi) > 0.2 and (d_in > 0) != (d_out > 0):
+        v.append((f"C15/{motion}/dihedral-sign-flipped", f"{what}: dihedral {d_in!r} -> {d_out!r}"))
+    if motion == "align_vectors" and not v:
+        a = np.array(case["origin"], dtype=np.float32).astype(np.float64)
+        b = np.array(case["target"], dtype=np.float32).astype(np.float64)
+        a, b = a / np.linalg.norm(a), b / np.linalg.norm(b)
+        if float(np.abs(R @ a - b).max()) > 1e-4:
+            v.append(("C15/align_vectors/origin-not-mapped-onto-target", f"{what}: R a = {(R @ a).tolist()}, target {b.tolist()}"))
+        if case["positions"]:
+            op = np.array(o_pos, dtype=np.float32).astype(np.float64)
+            tp = np.array(t_pos, dtype=np.float32).astype(np.float64)
+            img = R @ (op - p64[0]) + out[0]
+            if float(np.abs(img - tp).max()) > 64 * EPS["f32"] * mag:
+                v.append(("C15/align_vectors/origin-position-not-mapped-onto-target-position", f"{what}: {img.tolist()} vs {tp.tolist()}"))
+    if motion == "translate" and float(np.abs(R - np.eye(3)).max()) > 64 * EPS["f32"] * mag:
+        v.append(("C15/translate/not-a-translation", f"R = {R.tolist()}"))
     return v
 
 
